@@ -72,8 +72,9 @@ def diff_snap(a, b):
 
 
 @st.composite
-def histories(draw, reps):
-    fl = Flags(dependent=False, user_mh=False, max_concrete=6)
+def histories(draw, reps, concrete_start=True):
+    fl = Flags(dependent=False, user_mh=False, max_concrete=6, concrete_start=concrete_start, min_extra_concrete=2 if concrete_start == "always" else 0,
+               bare_lists=concrete_start != "always", max_list_size=3 if concrete_start != "always" else 2)
     spec = draw(specs(fl))
     rep = draw(st.sampled_from(reps))
     n_gen = draw(st.integers(1, 6))
@@ -87,7 +88,7 @@ def histories(draw, reps):
         "spec": spec,
         "rep": rep,
         "decider": draw(st.sampled_from(["maxdepth", "pigrow"])),
-        "depth_extra": draw(st.sampled_from([1, 2, 3, 4])),
+        "depth_extra": draw(st.sampled_from([1, 2, 3, 4] if concrete_start != "always" else [1, 1, 2])),
         "seed": draw(st.integers(0, 2**31)),
         "gene_length": draw(st.sampled_from([8, 64, 256])),
         "ops": [],
@@ -220,4 +221,19 @@ def _brief(s, what):
     return r if len(r) < 300 else r[:297] + "..."
 
 
-FACETS = [Histories()]
+class TreeConcreteStart(Histories):
+    """Tree representation with a recursive production as start symbol: only then does tree
+    crossover reuse inner nodes of the other parent (donor subtrees) instead of synthesising
+    fresh material, so aliasing between offspring and parents becomes observable."""
+
+    name = "step_histories_tree_concrete_start"
+    reps = ("tree",)
+
+    def budget(self, tier):
+        return (80, 4) if tier == "quick" else (400, 16)
+
+    def strategy(self, tier):
+        return histories(self.reps, concrete_start="always")
+
+
+FACETS = [Histories(), TreeConcreteStart()]
